@@ -30,7 +30,11 @@ type Env struct {
 }
 
 func (c *fnCtx) newEnv(st, old *State) *Env {
-	return &Env{c: c, st: st, old: old, vars: map[string]SymVal{}, bound: map[string]bool{}}
+	e := &Env{c: c, st: st, old: old, vars: map[string]SymVal{}, bound: map[string]bool{}}
+	if c.con != nil {
+		e.calleePkg = c.con.Pkg // names in a contract resolve in the package that declares it
+	}
+	return e
 }
 
 func (c *fnCtx) newEnvAt(st *State, at *ssa.BasicBlock) *Env {
@@ -1394,6 +1398,28 @@ func (e *Env) call(ex *ast.CallExpr) (SymVal, error) {
 			r = x.Fs[0].S
 		}
 		return mkBool(app(">", app("rootid", r), e.old.top)), nil
+	case "calleralloc":
+		// calleralloc(p): p was allocated by the activation being verified (at a call site: by the caller)
+		x, err := arg(0)
+		if err != nil {
+			return SymVal{}, err
+		}
+		r := x.S
+		if x.K == KSlice {
+			r = x.Fs[0].S
+		}
+		alts := []string{app(">", app("rootid", r), "top!0")}
+		// a closure's captured variables are cells of the activation that created it
+		if x.K == KRef && x.T != nil {
+			for _, fv := range c.fn.FreeVars {
+				if types.Identical(fv.Type(), x.T) {
+					if v, ok := c.vals[fv]; ok {
+						alts = append(alts, sEq(r, v.S))
+					}
+				}
+			}
+		}
+		return mkBool(sOr(alts...)), nil
 	case "storeof":
 		x, err := arg(0)
 		if err != nil {
